@@ -1,6 +1,6 @@
 (* Property C08 — reordering transformations only relabel; no point, cell or value is lost. *)
 From Coq Require Import QArith Arith Bool List Permutation Sorted.
-From FC Require Import Model.Scalar Model.Mesh Proofs.MeshP.
+From FC Require Import Model.Scalar Model.Mesh Proofs.MeshP Model.Compose Proofs.ComposeP.
 From FC Require Model.Merge Proofs.MergeP.
 Import ListNotations.
 Local Open Scope nat_scope.
@@ -88,6 +88,33 @@ Proof.
   split; [exact MergeP.wit_tri_wf|]. split; [exact MergeP.wit_quad_wf|]. split; [vm_compute; discriminate|vm_compute; reflexivity].
 Qed.
 Print Assumptions C08_merge_zero_rows_pinned_refuted.
+
+(* ---- every composition (Model/Compose.v) --------------------------------------------------------------------------- *)
+(* ANY sequence of point maps, per-block cell maps and strippings — of any length — that the implementation can perform
+   leaves the collection of (cell type, ordered corner coordinates) over the cells exactly as it was *)
+Theorem C08_any_composition_keeps_cells : forall ops M M',
+  run M ops = Some M' -> Permutation (cell_geometry M') (cell_geometry M).
+Proof. exact run_geometry. Qed.
+Print Assumptions C08_any_composition_keeps_cells.
+
+Theorem C08_compositions_compose : forall ops1 ops2 M,
+  run M (ops1 ++ ops2) = match run M ops1 with Some M1 => run M1 ops2 | None => None end.
+Proof. exact run_app. Qed.
+Print Assumptions C08_compositions_compose.
+
+(* stripping is defined on every mesh whose corners name points, and keeps as many points as cells reference *)
+Theorem C08_strip_step_defined : forall M, wf_mesh M ->
+  exists M', step M OStrip = Some M' /\ length (pts M') = length (strip_map M).
+Proof. exact strip_step_defined. Qed.
+Print Assumptions C08_strip_step_defined.
+
+Example C08_composition_nonvacuous :
+  let M := {| pts := [[0#1]; [5#1]; [1#1]; [2#1]]%Q; cells := [(3, [[3; 2]; [2; 0]])] |} in
+  (* strip (drops point 1), reverse the remaining points, swap the two cells, strip again (nothing left to drop) *)
+  run M [OStrip; OPoints [2; 1; 0]; OCells [[1; 0]]; OStrip]
+    = Some {| pts := [[2#1]; [1#1]; [0#1]]%Q; cells := [(3, [[1; 2]; [0; 1]])] |} /\
+  run M [OPoints [0; 1; 2]] = None /\ run M [OCells [[0; 0]]] = None.
+Proof. vm_compute. repeat split; reflexivity. Qed.
 
 Example C08_nonvacuous :
   let M := {| pts := [[0#1]; [1#1]; [2#1]; [3#1]; [9#1]]; cells := [(3, [[0;1]; [1;2]]); (1, [[3]])] |} in
